@@ -347,6 +347,27 @@ def run(res, tier, seed, replay):
             else:
                 res.violation("not prompt: " + msg, {"project": [(C.hx("a.jst"), C.hx(body))], "outcome": r[:200], "wall_s": dt})
         res.notes["doubling_chain"] = {"depth": depth, "bytes": len(body), "wall_s": round(dt, 2)}
+    if not replay:
+        # the same for TYPES: two types per layer, each referring to both types of the next layer (the example of the first
+        # type, and the time to build it, doubles with every layer - recorded finding); linear chains of the same size are prompt
+        L = 17 if quick else 19
+        tb = "JSIGHT 0.3\nGET /a\n  200 @t0a\n"
+        for i in range(L):
+            for x in "ab":
+                tb += ("TYPE @t%d%s\n  \"leaf\"\n" % (i, x)) if i == L - 1 else ("TYPE @t%d%s\n  {\n    \"p\": @t%da,\n    \"q\": @t%db\n  }\n" % (i, x, i + 1, i + 1))
+        r2, dt2 = run_isolated(P.run_line("out=sha", [("a.jst", tb)]), 120)
+        lin = "JSIGHT 0.3\nGET /a\n  200 @t0\n" + "".join("TYPE @t%d\n  {\n    \"p\": @t%d,\n    \"q\": 1\n  }\n" % (i, i + 1) for i in range(2 * L)) + "TYPE @t%d\n  \"leaf\"\n" % (2 * L)
+        r3, dt3 = run_isolated(P.run_line("out=sha", [("a.jst", lin)]), 60)
+        res.count(2)
+        if r3 == "timeout" or r3.startswith("crash") or dt3 > 2.0:
+            res.violation("not prompt: a linear chain of %d types took %.2fs (%s)" % (2 * L, dt3, r3[:40]), {"project": [(C.hx("a.jst"), C.hx(lin))], "wall_s": dt3})
+        if r2 == "timeout" or r2.startswith("crash") or dt2 > 0.5 + len(tb) / 20000.0:
+            msg = "class=doubling-type-graph layers=%d bytes=%d wall=%.2fs outcome=%s" % (L, len(tb), dt2, r2[:40])
+            if "C01/type-doubling-exponential" in known_ids and not r2.startswith("crash"):
+                res.known.append("id=C01/type-doubling-exponential " + msg)
+            else:
+                res.violation("not prompt: " + msg, {"project": [(C.hx("a.jst"), C.hx(tb))], "outcome": r2[:200], "wall_s": dt2})
+        res.notes["doubling_type_graph"] = {"layers": L, "bytes": len(tb), "wall_s": round(dt2, 2), "linear_chain_wall_s": round(dt3, 2)}
     for idx, dt in slow:
         res.violation("not prompt: project %d took %.1fs in isolation" % (idx, dt),
                       {"project": [(C.hx(n), C.hx(c)) for n, c in projects[idx]], "wall_s": dt})
